@@ -54,6 +54,17 @@ class C15(Prop):
                 return "%s:returned%s:expected%s" % (t[0], i[1], s[1])
         return t[0]
 
+    def judge(self, op, impl, model, spec):
+        if spec == "reject":
+            # not an AUTN (wrong length): acceptance (return code 0) is the violation; error codes and traps are not
+            if impl.startswith("ok 0 "):
+                return ("viol", op.split(" ")[0] + ":accepted-malformed-autn",
+                        "a token that is not a 16-octet AUTN was accepted (return code 0, RES/CK/IK handed out)")
+            if impl != model:
+                return ("corr", "implementation differs from the model")
+            return None
+        return Prop.judge(self, op, impl, model, spec)
+
     def nontrivial(self, op, impl):
         t = op.split(" ")
         sizes = self.SIZES.get(t[0])
